@@ -37,6 +37,8 @@ pub struct Ctx {
     pub out: Vec<String>,
     pub keep_dir: Option<std::path::PathBuf>,
     pub held: Option<rusqlite::Connection>,
+    /// a versions row whose payload column was set to NULL for the next operation (id text, old blob)
+    pub rowfault: Option<(String, Vec<u8>)>,
 }
 
 pub fn urg(u: SnapshotUrgency) -> &'static str {
@@ -64,6 +66,7 @@ impl Ctx {
             out: Vec::new(),
             keep_dir: std::env::var("TSS_KEEP_DIR").ok().map(std::path::PathBuf::from),
             held: None,
+            rowfault: None,
         };
         c.open(true);
         c
@@ -763,6 +766,23 @@ impl Ctx {
                 self.emit(format!("fault {spec}"), "faultset".into());
                 return;
             }
+            ["rowfault", spec, k] => {
+                // damage the stored row of one version (payload column NULL: the row can no longer be
+                // decoded) for the NEXT operation only; the model is told that storage call K of that
+                // operation fails.  SQLite only.
+                let u = self.resolve(spec);
+                let path = self.data_dir().join("taskchampion-sync-server.sqlite3");
+                let con = rusqlite::Connection::open(&path).expect("rowfault open");
+                let idt = u.as_hyphenated().to_string();
+                let old: Vec<u8> = con
+                    .query_row("SELECT history_segment FROM versions WHERE version_id = ?", [&idt], |r| r.get(0))
+                    .expect("rowfault: no such version row");
+                let n = con.execute("UPDATE versions SET history_segment = NULL WHERE version_id = ?", [&idt]).expect("rowfault update");
+                assert_eq!(n, 1);
+                self.rowfault = Some((idt, old));
+                self.emit(format!("fault {k}:before"), "faultset".into());
+                return;
+            }
             ["walk", c] => self.walk(c.parse().unwrap()),
             ["reread", c] => self.reread(c.parse().unwrap()),
             ["swalk", c] => self.swalk(c.parse().unwrap()),
@@ -780,6 +800,13 @@ impl Ctx {
 
     /// a fault plan applies to one operation; report how many faults actually fired
     pub fn after_op(&mut self) {
+        if let Some((idt, old)) = self.rowfault.take() {
+            let path = self.data_dir().join("taskchampion-sync-server.sqlite3");
+            let con = rusqlite::Connection::open(&path).expect("rowfault open");
+            con.execute("UPDATE versions SET history_segment = ? WHERE version_id = ?", rusqlite::params![old, idt]).expect("rowfault restore");
+            self.emit("mark fired 1".to_string(), "mark".into());
+            return;
+        }
         if let Some(st) = self.store.as_ref() {
             let had = !st.faults.lock().unwrap().plan.is_empty();
             let fired = st.clear_plan();
